@@ -255,6 +255,19 @@ def write_pdb(path, atoms, box=None, title="supplied"):
     Path(path).write_text("\n".join(lines) + "\n")
 
 
+def refused_outside_box(exc, spec=None):
+    """the periodic neighbour search refuses coordinates that lie beyond the box of the structure they came with
+    (scipy: 'Some input data are greater than the size of the periodic box'): an input outside the domain -
+    only when the generated structure itself holds such a coordinate"""
+    if not (isinstance(exc, ValueError) and "greater than the size of the periodic box" in str(exc)):
+        return False
+    coords = (spec or {}).get("coords")
+    if not coords:
+        return False
+    box = coords["box"] if coords.get("cryst", True) else ((spec.get("opts") or {}).get("box") or coords["box"])
+    return any(a[3][i] >= box[i] for a in coords["atoms"] for i in range(3))
+
+
 class Result:
     def __init__(self):
         self.exc = None
